@@ -222,17 +222,24 @@ def run(F, R, tier):
                 "store: key_dir.join(key.guid) + .key/.encrypted; fetch: key_dir.join(key_guid) + .key/.encrypted",
                 "store names %s / %s, fetch names %s / %s" % (sorted(map(str, se)), sj, sorted(map(str, fe)), fj))
 
-    # ------------------------------------------------------------------ R6 [T]
-    if tier == "thorough":
-        bad = []
-        for fid, fn in F.fns.items():
-            if fn["crate"] != "azure_proxy_agent":
-                continue
-            for b in fn["blocks"]:
-                t = b["term"]
-                if t["k"] == "call" and "fn" in t["f"] and q.ends(t["f"]["fn"], "std::fs::remove_file", "std::fs::remove_dir_all", "std::fs::remove_dir"):
-                    B = mir.Body(fn, F)
-                    org = B.origins(t["args"][0])
-                    if any("key_dir" in str(o) or "get_latch_key_folder" in str(o) for o in org):
-                        bad.append((fid, t["line"]))
-        R.check(not bad, "C08.R6", "C08.R6:no-key-deletion", "-", "no fs::remove_* call has a path derived from the key directory", "key files may be deleted at %s" % bad)
+    # ------------------------------------------------------------------ R6
+    from lib import sympath
+    S = sympath.Sym(F, ["azure_proxy_agent", "proxy_agent_shared"])
+    bad = []
+    n_rm = 0
+    for fid, fn in F.fns.items():
+        if fn["crate"] != "azure_proxy_agent":
+            continue
+        for b in fn["blocks"]:
+            t = b["term"]
+            if t["k"] == "call" and "fn" in t["f"] and q.ends(t["f"]["fn"], "std::fs::remove_file", "std::fs::remove_dir_all", "std::fs::remove_dir", "std::fs::rename"):
+                n_rm += 1
+                B = S.body(fid)
+                syms = S.sym(B, t["args"][0], {})
+                org = B.origins(t["args"][0])
+                txt = " ".join(sorted(syms)) + " " + " ".join(map(str, org))
+                if any(k in txt for k in ("key_dir", "get_latch_key_folder", "get_keys_dir", "key_file", "key_guid", ".key", ".encrypted")):
+                    bad.append((fid.replace(AP, ""), t["line"], sorted(syms)))
+    R.check(not bad, "C08.R6", "C08.R6:no-key-deletion", "-",
+            "no fs::remove_* / rename-away call in the agent has a path derived from the key directory (%d removal sites inspected)" % n_rm,
+            "key files may be deleted or moved away: %s" % bad)
